@@ -20,6 +20,7 @@ type ReplayOut struct {
 	Result  string   `json:"result"` // ok | fail | panic | assume | missing
 	Label   string   `json:"label"`
 	Reached []string `json:"reached"`
+	Known   []string `json:"known"`
 }
 
 func keyForPkgPath(p string) string {
